@@ -623,12 +623,25 @@ func isNullValue(fd protoreflect.FieldDescriptor) bool {
 	return ed != nil && ed.FullName() == "google.protobuf.NullValue"
 }
 
+// fieldOf returns the message's own descriptor of the field fd. A rule keeps
+// the field descriptors of the registration that bound it; the message of a
+// request may be built from another instance of the same descriptors (a second
+// backend that serves the same service, a backend that registered again), and
+// protobuf-go accepts only a message's own field descriptors.
+func fieldOf(m protoreflect.Message, fd protoreflect.FieldDescriptor) protoreflect.FieldDescriptor {
+	if own := m.Descriptor().Fields().ByNumber(fd.Number()); own != nil {
+		return own
+	}
+	return fd
+}
+
 type params []param
 
 func (ps params) set(m proto.Message) error {
 	for _, p := range ps {
 		cur := m.ProtoReflect()
 		for i, fd := range p.fds {
+			fd = fieldOf(cur, fd)
 			if len(p.fds)-1 == i {
 				switch {
 				case fd.IsList():
